@@ -103,6 +103,7 @@ class Ctx:
         self.assumptions = []
         self.violations = []      # dicts: kind, detail, signature, replay (obj)
         self.inconclusive = []
+        self.notes = []           # things a reader should know that change no verdict
         self.level = "exploration"
         self.exhaustive = False
         os.makedirs(REPLAYS, exist_ok=True)
@@ -275,6 +276,8 @@ class Ctx:
             "known_findings_hit": sorted(known_hit),
             "inconclusive_reasons": self.inconclusive,
         }
+        if self.notes:
+            coverage["notes"] = self.notes
         if self.exhaustive_subruns:
             coverage["exhaustive_subruns"] = self.exhaustive_subruns
         evidence = {
@@ -292,6 +295,8 @@ class Ctx:
             f.write("\n")
         for l in lines:
             print(l)
+        for n in self.notes:
+            print("NOTE property=%s %s" % (self.pid, n.replace("\n", " | ")[:1200]))
         print("%s %s seed=%d: %s; %d evaluations, %d distinct non-trivial, %.1fs" % (
             self.pid, self.tier, self.seed, coverage["verdict"], self.evaluations, self.distinct, wall))
         return status
